@@ -22,7 +22,7 @@ HARNESS = [
     # actor's handlers combine them (one message over several deadlines / partitions, State.early_terminations)
     {"bin": "minerpower", "tag": "minerpower",
      "quick": {"cases": 300, "len": 30, "shards": 1},
-     "thorough": {"cases": 3000, "len": 30, "shards": 1},
+     "thorough": {"cases": 1500, "len": 30, "shards": 1},
      "search": {"cases": 900, "len": 30}},
 ]
 TRUSTED_BASE = TRUSTED_BASE_COMMON + [
